@@ -1,8 +1,15 @@
 /* C22 helper: C code called through cffi that reads / assigns errno and calls back.
-   script: n pairs (code, value): 4 = errno = value; 5 = out[(*k)++] = errno; 7 = cb(value) */
+   script: n pairs (code, value):
+     4 = errno = value;  5 = out[(*k)++] = errno;
+     7 = cb(value)   plain callback
+     8 = cbe(value)  callback created with onerror=
+     9 = cbu(value)  extern "Python" function that has no @ffi.def_extern() attached (API mode only)
+   c22_run_thread runs the same script in a fresh pthread (a thread that never held the GIL), waits for
+   it and then assigns errno = final in the calling thread. */
 #include <errno.h>
+#include <pthread.h>
 typedef int (*c22_cb_t)(int);
-int c22_run(int n, const int *script, int *out, int *k, c22_cb_t cb)
+int c22_run(int n, const int *script, int *out, int *k, c22_cb_t cb, c22_cb_t cbe, c22_cb_t cbu)
 {
     int i;
     for (i = 0; i < n; i++) {
@@ -10,7 +17,28 @@ int c22_run(int n, const int *script, int *out, int *k, c22_cb_t cb)
         if (c == 4) errno = v;
         else if (c == 5) { out[*k] = errno; (*k)++; }
         else if (c == 7) cb(v);
+        else if (c == 8) cbe(v);
+        else if (c == 9) cbu(v);
     }
     return *k;
+}
+struct c22_job { int n; const int *script; int *out; int *k; c22_cb_t cb, cbe, cbu; };
+static void *c22_thread_main(void *p)
+{
+    struct c22_job *j = (struct c22_job *)p;
+    c22_run(j->n, j->script, j->out, j->k, j->cb, j->cbe, j->cbu);
+    return 0;
+}
+int c22_run_thread(int n, const int *script, int *out, int *k, c22_cb_t cb, c22_cb_t cbe, c22_cb_t cbu, int final)
+{
+    struct c22_job j;
+    pthread_t th;
+    int r;
+    j.n = n; j.script = script; j.out = out; j.k = k; j.cb = cb; j.cbe = cbe; j.cbu = cbu;
+    r = pthread_create(&th, 0, c22_thread_main, &j);
+    if (r == 0)
+        r = pthread_join(th, 0);
+    errno = final;
+    return r;
 }
 int c22_glob = 42;
